@@ -182,6 +182,16 @@ def _generate(rng, tier):
         first = (ents[0] + "\n").encode("utf-8") if bad != 0 else good
         badrec = b"NOT A RECORD\n\n"
         cases.append(Case("stream.cont", [enc(c) for c in [first[:-9], first[-9:] + badrec] + tail + [good]], meta={"kind": "cont", "nt": True}))
+    # one record larger than 4 / 8 / 64 KiB: a first write without any separator of 4095 ... bytes, a second write ending
+    # exactly on the record boundary, then short writes (offsets remembered across writes must follow the buffer)
+    for size in (6000, 10000, 70000):
+        rec = stream_of(rng, 1, None)[0] + "DESCRIPTION=" + "x" * size + "\n"
+        b = (rec + "\n").encode("utf-8")
+        good = (stream_of(rng, 1, None)[0] + "\n").encode("utf-8")
+        for cut in (4095, 4096, 4097, 5000, 8192, 8193, 65536, 65537):
+            if cut < len(b) - 2:
+                cases.append(Case("stream.cont", [enc(c) for c in (b[:cut], b[cut:], good[:10], good[10:], b"x")], meta={"kind": "cont", "nt": True}))
+                cases.append(Case("stream.cont", [enc(c) for c in (b[:cut], b[cut:-1], b[-1:], good)], meta={"kind": "cont", "nt": True}))
     # not UTF-8 at all: outside the property, still compared with the model
     for junk in (b"PKGNAME=\xff\n\n", b"\xc3\n\n", b"a=b\n\n\xe9", b"\n\n", b"\n\n\n", b"x"):
         cases.append(Case("stream", [enc(junk)], meta={"kind": "junk", "nt": False}))
